@@ -152,4 +152,19 @@ META = {
                 "interleavings below call granularity are not modelled.",
         "technique": "Lean 4 proof (record equality after update_raw; induction over schedules) + differential correspondence + multi-thread run",
     },
+    "C16": {
+        "text": "Translator + Lean theorems. The normaliser's table is REGENERATED on every run by evaluating the compiled "
+                "KyteaFullwidthFilter on all 1,112,064 Unicode scalar values; C16_norm_len, C16_norm_idem and C16_norm_only_table are "
+                "proved from three whole-table checks (every image is one valid non-NUL scalar; no image is a key) by decide +kernel, "
+                "so a changed table entry that breaks the property breaks a proof obligation, and the all-scalars oracle supplies "
+                "the failing character. Stream: for every predictor/filter set, the tokens tile the ORIGINAL text — start 0, contiguous, "
+                "non-empty, on character boundaries, carrying the original substring, positions 0,1,2,…, end = byte length "
+                "(C16_tiling, C16_empty), they break exactly at the pipeline's W labels (C16_breaks_eq_pipeline), and for every "
+                "well-formed model the pipeline keeps one boundary per adjacent character pair of the original text "
+                "(C16_pipeline_len, using C16_norm_len, C01_scores and the C15 filter theorems). Tied to /repo by a harness driving "
+                "the real VaporettoTokenizer against the model, with offset/tiling/text/position/break oracles.",
+        "design_ref": "DESIGN.md §6 C16",
+        "note": _common_note + "tantivy's TextAnalyzer plumbing and Token struct are not modelled; NUL-containing text is emitted as one token (fix F-C16).",
+        "technique": "translator (exhaustive tabulation -> regenerated Lean table, decide +kernel) + Lean 4 proof over byte-offset lists + differential correspondence",
+    },
 }
